@@ -113,7 +113,7 @@ func buildSchema(sp lib.Spec) *builtSchema {
 		b.validateChecked = b.validate
 		return b
 	}
-	b.check = lib.Safe(s.Check)
+	b.check = lib.CheckObs(s)
 	b.ok = b.check.OK
 	b.validate = func(doc string) lib.Obs { return lib.ValidateOn(s, doc) }
 	b.validateChecked = func(doc string) lib.Obs { return lib.ValidateOnChecked(s, doc) }
